@@ -17,6 +17,7 @@ LEVEL_TEXT = ("Bounded verification by symbolic execution of the real typing cod
 LEVEL_NOTE = ("Bounds: n in {1,2,F-1,F,F+1} quick / also F+2 and mid lengths thorough per class shape; letters over all 15 IUPAC "
               "codes in both cases; m<=3 modules in the assembly clause. Exceptions that only C-level library code could raise "
               "on exotic input are covered by the concrete differential samples only. Trusted: z3, CPython, symx models.")
+LEVEL_NOTE_EXTRA = 'Also: how a record is invalid is symbolic: structure mismatch (InvalidSequence carrying the record) or illegal site (IllegalSite carrying the bare sequence).'
 TECHNIQUE = "bounded symbolic execution of the real Python source (symx) with z3; exceptions observed as path outcomes; replay on the real stack"
 EXPLANATION = ("symbolic execution over the IUPAC x case alphabet: any exception other than the documented ones that escapes "
                "is_valid/overhang_*/target_sequence/assemble on some feasible path is a counterexample (replayed concretely)")
